@@ -34,6 +34,7 @@ def run(c, chk):
         chk.rule('R4.9', 'every value token written for a declared option reaches the store (the parser table equals the reference automaton, rule R1.1 of C01)')
         c01.grammar(c, c08.chk_proxy(chk, {'R1.1': 'R4.9'}), pm.ParserModel(c))
     bulk_converts_all(c, chk)
+    verdict_is_the_conversions(c, chk)
     if not isinstance(chk, report.SubCheck):
         # R4.11: "the whole token": what reaches the conversion is the token as the language defines it (no blanks trimmed off a
         # quoted token, no bytes dropped by the scanner)
@@ -409,3 +410,39 @@ def bulk_converts_all(c, chk):
     elif n:
         chk.ok('R4.10', 'cfg_opt_setmulti: %d paths through the token loop' % n, 'tokens 0, 1, 2, ... in order', sample=True)
     chk.floor('R4.10 paths through the token loop', n, 2)
+
+
+def verdict_is_the_conversions(c, chk):
+    """R4.12: whether a token is a numeral is decided by the conversion (strtol/strtod with the radix of the prefix): the store
+    refuses a non-NULL token of a number option only after it has been handed to the conversion.  A test of its own in
+    front of the conversion (a digit table, a length limit) refuses numerals the conversion takes - upper-case hex digits,
+    say - or lets through what it rejects"""
+    chk.rule('R4.12', 'a non-NULL token of a number option is refused only after it was handed to strtol()/strtod() (no private pre-validation decides)')
+    fn = c.need('cfg_setopt')
+    ex = sym.Explorer(c.modules, max_visits=2, mod_sets=c.mod_sets, max_paths=100000)
+    n = 0
+    bad = None
+    for p in ex.explore(fn):
+        if p.end != 'ret' or p.retval != sym.C0:
+            continue
+        facts = set(('' if t else '!') + pm.describe_cond(cn) for cn, t, _ in p.assume)
+        kind = 'INT' if 'opt->type eq INT' in facts else 'FLOAT' if 'opt->type eq FLOAT' in facts else None
+        if kind is None or 'opt->parsecb' in facts:
+            continue
+        if '!value' in facts or 'not(value)' in facts:
+            continue
+        errs = [e for e in p.events if e.kind == 'call' and e.name == 'cfg_error']
+        if not errs:
+            continue
+        n += 1
+        conv = [e for e in p.events if e.kind == 'call' and e.name in ('strtol', 'strtod', 'strtoul', 'strtoll')]
+        if not conv or p.events.index(conv[0]) > p.events.index(errs[0]):
+            bad = bad or (p, errs[0], kind)
+    if bad is not None:
+        p, e, kind = bad
+        chk.fail('R4.12', 'refused-unconverted:%s' % kind, c.where(e.ins), 'cfg_setopt() refuses a token of a%s option with a diagnostic before it has been handed to the conversion (%s): '
+                 'what is a numeral is then decided by that test, not by the conversion - e.g. a digit table without the upper-case hex digits refuses "0xFF"'
+                 % ('n integer' if kind == 'INT' else ' float', fp.cond_text(p, 4)))
+    elif n:
+        chk.ok('R4.12', 'cfg_setopt: %d diagnosed refusals of number tokens' % n, 'each after the conversion call', sample=True)
+    chk.floor('R4.12 diagnosed refusals of number tokens', n, 4)
